@@ -50,6 +50,11 @@ def nat : P Nat := do
   | some n => pure n
   | none => throw s!"not a natural: {t}"
 
+/-- an optional trailing natural number (`dflt` when the line has ended) -/
+def optNat (dflt : Nat) : P Nat := do
+  let c ← get
+  if c.pos < c.toks.size then nat else pure dflt
+
 def int : P Int := do
   let t ← tok
   match t.toInt? with
